@@ -365,7 +365,8 @@ func renderREST(b *Binding, msg proto.Message, r *rand.Rand, ch renderChoices) (
 	}
 	for i := 0; i < len(b.Segs); {
 		if v, ok := varAt[i]; ok {
-			leafMsg, fd, present := getPath(work, v.Fields)
+			leafMsg, _, present := getPath(work, v.Fields)
+			fd := v.Fields[len(v.Fields)-1]
 			if fd.IsList() || fd.IsMap() || (fd.Kind() == protoreflect.MessageKind) || fd.Kind() == protoreflect.GroupKind {
 				return nil, errNotCarriable
 			}
@@ -694,7 +695,14 @@ func resolveQueryKey(md protoreflect.MessageDescriptor, key string) ([]protorefl
 }
 
 // matchBinding matches a raw path against the binding's template; returns raw captures per variable.
+// Strict reading: '*' is one non-empty segment, '**' is one or more segments.
 func matchBinding(b *Binding, rawPath string) (caps []string, ok bool) {
+	return matchBindingMode(b, rawPath, false)
+}
+
+// matchBindingMode with permissive=true also accepts the readings the grammar leaves open: empty segments
+// matched by wildcards and '**' matching zero segments.
+func matchBindingMode(b *Binding, rawPath string, permissive bool) (caps []string, ok bool) {
 	if !strings.HasPrefix(rawPath, "/") {
 		return nil, false
 	}
@@ -702,7 +710,11 @@ func matchBinding(b *Binding, rawPath string) (caps []string, ok bool) {
 	verb := ""
 	if li := strings.LastIndexByte(p, '/'); true {
 		last := p[li+1:]
-		if ci := strings.LastIndexByte(last, ':'); ci >= 0 {
+		ci := strings.LastIndexByte(last, ':')
+		if permissive {
+			ci = strings.IndexByte(last, ':')
+		}
+		if ci >= 0 {
 			verb = last[ci+1:]
 			p = p[:li+1+ci]
 		}
@@ -722,11 +734,17 @@ func matchBinding(b *Binding, rawPath string) (caps []string, ok bool) {
 			}
 			pi++
 		case segStar:
-			if pi >= len(parts) || parts[pi] == "" {
+			if pi >= len(parts) || (parts[pi] == "" && !permissive) {
 				return nil, false
 			}
 			pi++
 		case segDStar:
+			if pi >= len(parts) && !permissive {
+				return nil, false
+			}
+			if pi > len(parts) {
+				return nil, false
+			}
 			pi = len(parts)
 		}
 	}
@@ -739,7 +757,11 @@ func matchBinding(b *Binding, rawPath string) (caps []string, ok bool) {
 		if v.End != -1 {
 			end = segStart[v.End]
 		}
-		caps = append(caps, strings.Join(parts[segStart[v.Start]:end], "/"))
+		st := segStart[v.Start]
+		if st > end {
+			st = end
+		}
+		caps = append(caps, strings.Join(parts[st:end], "/"))
 	}
 	return caps, true
 }
